@@ -61,7 +61,14 @@ pub fn streams(args: &[String]) {
     let mapped_writers = writer == "mapped";
     std::thread::spawn(move || {
         let mut cmd = Command::new(child_bin);
-        cmd.arg(script).env("VP_CHILD_PIDFILE", pidfile).stdin(std::process::Stdio::null());
+        let gofile = format!("{pidfile}.go");
+        cmd.arg(script).env("VP_CHILD_PIDFILE", pidfile).env("VP_CHILD_GOFILE", &gofile).stdin(std::process::Stdio::null());
+        // spawn_and_write_streams hands back the child once both streams are closed - the child may well live on. The "go" file
+        // tells a child that is waiting for it (script step "g") that the call has returned.
+        let released = |c: std::process::Child| {
+            let _ = std::fs::write(&gofile, b"go");
+            c
+        };
         fn pfx(p: &'static [u8]) -> impl Fn(Vec<u8>) -> Vec<u8> + Sync + Send + 'static {
             move |mut l: Vec<u8>| {
                 let mut out = p.to_vec();
@@ -75,8 +82,8 @@ pub fn streams(args: &[String]) {
             ("output", true) => cmd
                 .output_and_write_streams(line_mapped(ow2, pfx(b"O> ")), line_mapped(ew2, pfx(b"E> ")))
                 .map(|o| (o.status.code(), Some(vpharness::hex(&o.stdout)), Some(vpharness::hex(&o.stderr)))),
-            (_, false) => cmd.spawn_and_write_streams(ow2, ew2).and_then(|mut c| c.wait()).map(|s| (s.code(), None, None)),
-            (_, true) => cmd.spawn_and_write_streams(line_mapped(ow2, pfx(b"O> ")), line_mapped(ew2, pfx(b"E> "))).and_then(|mut c| c.wait()).map(|s| (s.code(), None, None)),
+            (_, false) => cmd.spawn_and_write_streams(ow2, ew2).map(released).and_then(|mut c| c.wait()).map(|s| (s.code(), None, None)),
+            (_, true) => cmd.spawn_and_write_streams(line_mapped(ow2, pfx(b"O> ")), line_mapped(ew2, pfx(b"E> "))).map(released).and_then(|mut c| c.wait()).map(|s| (s.code(), None, None)),
         };
         let _ = tx.send(res.map_err(|e| format!("{e:?}")));
     });
